@@ -389,3 +389,6 @@ def run(ctx, facts):
     except ImportError:
         ctx.note("L5 is evaluated by the ESP rule O3 (C04)")
     rule_l6(ctx, facts)
+    ctx.rule("L7", "lock-free readers search a tree bin through the tree only under the read lock, else through the next-pointer list (rule D6)", floor=3)
+    from .rules_c11 import rule_d6
+    rule_d6(ctx, facts, rule="L7")
